@@ -253,6 +253,17 @@ func (g *gen) genPkg(pkg *Pkg, earlier []*Pkg) {
 				it = twins[g.pick("twinIdx", len(twins))]
 			}
 			td.ImplRefs = append(td.ImplRefs, ImplRef{Ptr: g.chance("implAmp", 50), Iface: it})
+			// a second contract on the same type, possibly failing for another reason
+			if g.chance("secondImplements", 30) {
+				switch g.pick("secondKind", 3) {
+				case 0:
+					td.ImplRefs = append(td.ImplRefs, ImplRef{Raw: "MissingIface"})
+				case 1:
+					td.ImplRefs = append(td.ImplRefs, ImplRef{Raw: "nosuchpkg.Repo", Ptr: true})
+				default:
+					td.ImplRefs = append(td.ImplRefs, ImplRef{Ptr: g.chance("implAmp2", 50), Iface: ifaces[g.pick("implIface2", len(ifaces))]})
+				}
+			}
 			nm := rapid.IntRange(0, 2).Draw(t, "implMethods")
 			for k := 0; k < nm; k++ {
 				m := &FuncDecl{ID: g.p.NewID(), Name: fmt.Sprintf("G%d", k), Pkg: pkg, done: true, called: true}
